@@ -61,7 +61,10 @@ Fixpoint root_fields (acc_fields : list field) (fields : list field) : option (l
   match acc_fields with
   | [] => Some fields
   | f :: t =>
-      if is_builtin (f_name f) || is_node_field f then root_fields t fields
+      if is_builtin (f_name f) then root_fields t fields
+      (* since fix: the Relay entry point of an earlier service is kept when the later one has none (before: dropped
+         whenever it came from the accumulated side, so `node` survived only if the LAST service declared it) *)
+      else if is_node_field f && field_named (f_name f) fields then root_fields t fields
       else if field_named (f_name f) fields then None
       else root_fields t (fields ++ [f])
   end.
